@@ -17,7 +17,13 @@ func MakeVirtualHostBucketAddressingMiddleware(baseEndpoint string, next http.Ha
 		if hostname != baseEndpoint && strings.HasSuffix(hostname, endpointSuffix) {
 			bucket := strings.TrimSuffix(hostname, endpointSuffix)
 			if bucket != "" {
-				r.URL.Path = strings.TrimSuffix("/"+bucket+r.URL.Path, "/")
+				// Only the bucket root ("/") maps to "/<bucket>"; a trailing
+				// slash of an object key (e.g. "dir/") is part of the key.
+				path := r.URL.Path
+				if path == "/" {
+					path = ""
+				}
+				r.URL.Path = "/" + bucket + path
 			}
 		}
 		next.ServeHTTP(w, r)
